@@ -29,7 +29,7 @@ from fractions import Fraction
 
 import numpy as np
 
-LEAN_TARGETS = ["YProofs.Props.C09"]
+LEAN_TARGETS = ["YProofs.Props.C09", "YProofs.Props.C09Var"]
 LEVEL = "proof"
 TRANSLATORS = ["gen_consts"]
 DRIVER = "drv_c09"
